@@ -245,3 +245,90 @@ Definition pq_reorder (elems : list nat) (F : list (list nat)) : result (list (l
     | Ok (Leaf _) => Err OtherErr        (* tuple.ordering: never reached *)
     | Ok t => Ok (ordering t)
     end.
+
+(* ------------------------------------------------------------------------------------------------ *)
+(* structural invariants (boolean), used by Proofs/PQTree.v and checked on the whole campaign by op c05.pq_inv.
+   All of them are relative to the element v that has just been processed. *)
+Definition pureF (v : nat) (t : pq) : bool := forallb (memn v) (ordering t).          (* every set contains v *)
+Definition pureE (v : nat) (t : pq) : bool := forallb (fun s => negb (memn v s)) (ordering t).
+
+Inductive cls := CE | CF | CX.
+Definition cls_of (v : nat) (t : pq) : cls := if pureE v t then CE else if pureF v t then CF else CX.
+Definition is_CE (c : cls) : bool := match c with CE => true | _ => false end.
+Definition is_CF (c : cls) : bool := match c with CF => true | _ => false end.
+
+Fixpoint drop_E {T} (l : list (cls * T)) : list (cls * T) :=
+  match l with
+  | (CE, _) :: t => drop_E t
+  | _ => l
+  end.
+
+(* a run of children (class, flag) that is  F+  or a single  X  whose flag holds *)
+Definition core_ok (l : list (cls * bool)) : bool :=
+  match l with
+  | [(CX, b)] => b
+  | [] => false
+  | _ => forallb (fun cb => is_CF (fst cb)) l
+  end.
+
+(* every node has at least two children *)
+Fixpoint proper (t : pq) : bool :=
+  match t with
+  | Leaf _ => true
+  | Node _ cs => (2 <=? length cs) && forallb proper cs
+  end.
+
+(* right-aligned: the sets containing v are at the right end of the frontier and simplify(right) splits the tree
+   into blocks without v followed by blocks with v.  la = false: right aligned, la = true: left aligned *)
+Fixpoint aligned (la : bool) (v : nat) (t : pq) : bool :=
+  match t with
+  | Leaf _ => false
+  | Node KP cs =>
+      (length (filter (fun c => negb (pureE v c)) cs) =? 1) &&
+      forallb (fun c => pureE v c || pureF v c || aligned la v c) cs
+  | Node KQ cs =>
+      let l := map (fun c => (cls_of v c, aligned la v c)) cs in
+      core_ok (drop_E (if la then rev l else l))
+  end.
+
+(* v-contiguous form: in every frontier the tree represents, the sets containing v are consecutive *)
+Fixpoint cform (v : nat) (t : pq) : bool :=
+  pureE v t || pureF v t ||
+  match t with
+  | Leaf _ => false
+  | Node KP cs =>
+      (length (filter (fun c => negb (pureE v c)) cs) =? 1) && forallb (fun c => pureE v c || cform v c) cs
+  | Node KQ cs =>
+      let l := map (fun c => (cls_of v c, cform v c)) cs in
+      core_ok (rev (drop_E (rev (drop_E l))))
+  end.
+
+Definition status_ok (v : nat) (t : pq) (st : status) : bool :=
+  match st with
+  | SFull => pureF v t
+  | SEmpty => pureE v t
+  | SPartA => negb (pureE v t) && negb (pureF v t) && aligned false v t
+  | SPartU => negb (pureE v t) && negb (pureF v t) && cform v t
+  end.
+
+(* the loop of reorder_sets with the invariants checked after every element: true = all hold (or ValueError) *)
+Fixpoint pq_loop_inv (fuel : nat) (elems : list nat) (t : pq) : bool :=
+  match elems with
+  | [] => true
+  | i :: rest =>
+      match set_contiguous fuel i t with
+      | Err ValueErr => true
+      | Err _ => false
+      | Ok (t', st) =>
+          let t2 := flat_ret t' in
+          status_ok i t' st && cform i t' && proper t2 &&
+          (* a second application on the processed tree keeps it proper without flattening *)
+          match set_contiguous fuel i t2 with
+          | Ok (t3, st3) => proper t3 && status_ok i t3 st3
+          | Err _ => false
+          end &&
+          pq_loop_inv fuel rest t2
+      end
+  end.
+Definition pq_inv (elems : list nat) (F : list (list nat)) : bool :=
+  (length F <=? 2) || pq_loop_inv (length F) elems (Node KP (map Leaf F)).
